@@ -28,7 +28,10 @@ Failure(r) ==
                 /\ ~ProtoProblem(q, c) => o.rejectHdrPresent)
 
 Ok(r) ==
-    LET v == ServerVerdict(r.req, r.cfg) IN
+    \* (net/http hands the HTTP upgrader the first value of a repeated header only: which of two differing
+    \*  key lines it judges is left open there)
+    LET v == IF r.req.key \in {"latebad", "earlybad"} /\ r.api \in {"HTTPUpgrader", "UpgradeHTTP"} THEN "open"
+             ELSE ServerVerdict(r.req, r.cfg) IN
     /\ (r.obs.wrote = "101") = r.obs.errNil          \* never a 101 on failure
     /\ CASE v = "ok" -> Success(r)
          [] v = "fail" -> Failure(r)
